@@ -41,6 +41,16 @@ fn opnd_from(v: &Value) -> Opnd {
     }
 }
 
+/// SortedIds is not re-exported by name; build it through the public From<Vec<u64>> of the iterator item type
+fn ommx_sorted(ids: Vec<u64>) -> <<&'static Polynomial as IntoIterator>::Item as First>::T {
+    ids.into()
+}
+pub trait First {
+    type T;
+}
+impl<A, B> First for (A, B) {
+    type T = A;
+}
 fn err(e: impl std::fmt::Display) -> Value {
     json!({"tag":"err","msg": format!("{e:#}")})
 }
@@ -178,6 +188,40 @@ pub fn apply(ev: &Value) -> Vec<Value> {
                     "as_constant": optv(&f.clone().as_constant(), |c| from_f64(*c)),
                     "constant": from_f64(f.get_constant()),
                     "iter": iter_terms(&f)})
+            });
+            vec![mk(out)]
+        }
+        "fmt" => {
+            // Display of the typed message / the Function wrapper
+            let out = guarded(|| {
+                let f = function_from(&inp["f"]);
+                let s = match (&f.function, inp["via"].as_str().unwrap_or("function")) {
+                    (Some(ommx::v1::function::Function::Linear(l)), "typed") => l.to_string(),
+                    (Some(ommx::v1::function::Function::Quadratic(q)), "typed") => q.to_string(),
+                    (Some(ommx::v1::function::Function::Polynomial(p)), "typed") => p.to_string(),
+                    _ => f.to_string(),
+                };
+                json!({"tag":"ok","s":s})
+            });
+            vec![mk(out)]
+        }
+        "ctor" => {
+            let out = guarded(|| match inp["kind"].as_str().unwrap() {
+                "linear_new" => {
+                    let terms: Vec<(u64, f64)> = inp["terms"].as_array().unwrap().iter().map(|t| (t[0].as_u64().unwrap(), to_f64(&t[1]))).collect();
+                    let l = Linear::new(terms.into_iter(), to_f64(&inp["constant"]));
+                    json!({"tag":"ok","f":linear_to(&l)})
+                }
+                "quadratic_from_iter" => {
+                    let q: Quadratic = inp["entries"].as_array().unwrap().iter()
+                        .map(|t| ((t[0].as_u64().unwrap(), t[1].as_u64().unwrap()), to_f64(&t[2]))).collect();
+                    json!({"tag":"ok","f":quadratic_to(&q)})
+                }
+                _ => {
+                    let p: Polynomial = inp["terms"].as_array().unwrap().iter()
+                        .map(|t| (ommx_sorted(t[0].as_array().unwrap().iter().map(|x| x.as_u64().unwrap()).collect()), to_f64(&t[1]))).collect();
+                    json!({"tag":"ok","f":polynomial_to(&p)})
+                }
             });
             vec![mk(out)]
         }
